@@ -79,10 +79,30 @@ func (w *World) captureFlush(st *storeState, header []byte) {
 		if r.sel.Site != SiteFlush || r.sel.N != w.flushIdx {
 			continue
 		}
+		if r.sel.Enumerate && len(W) <= 6 {
+			for mask := 0; mask < 1<<uint(len(W)); mask++ {
+				sel := *r.sel
+				sel.Enumerate, sel.SubsetSeed, sel.All, sel.Subset = false, 0, false, nil
+				for i := range W {
+					if mask&(1<<uint(i)) != 0 {
+						sel.Subset = append(sel.Subset, i)
+					}
+				}
+				w.emitFlushImage(st, header, W, base, frontier, nNew, sel, r.idx, mask)
+			}
+			sel := *r.sel
+			sel.Enumerate, sel.SubsetSeed, sel.All, sel.Subset = false, 0, true, nil
+			w.emitFlushImage(st, header, W, base, frontier, nNew, sel, r.idx, 1<<uint(len(W)))
+			w.count("flush_enumerated")
+			continue
+		}
 		sel := *r.sel
+		sel.Enumerate = false
+		if !sel.All && sel.SubsetSeed == 0 && r.sel.Enumerate {
+			sel.SubsetSeed = uint64(len(W))*0x9e3779b97f4a7c15 | 1
+		}
 		var subset []int
-		all := sel.All
-		if !all {
+		if !sel.All {
 			if sel.SubsetSeed != 0 {
 				seed := sel.SubsetSeed
 				mode := splitmix(&seed) % 4
@@ -119,72 +139,77 @@ func (w *World) captureFlush(st *storeState, header []byte) {
 				}
 				sort.Ints(subset)
 				sel.SubsetSeed = 0
-				sel.Subset = subset
 			} else {
 				for _, i := range sel.Subset {
 					if i >= 0 && i < len(W) {
 						subset = append(subset, i)
 					}
 				}
-				sel.Subset = subset
 			}
+			sel.Subset = subset
 		}
-		img := append([]byte(nil), base...)
-		sh := &fileShadow{data: img}
-		hasExisting, missingNew := false, false
-		in := map[int]bool{}
-		if all {
-			for i := range W {
-				in[i] = true
-			}
-		}
-		for _, i := range subset {
+		w.emitFlushImage(st, header, W, base, frontier, nNew, sel, r.idx, -1)
+	}
+}
+
+// emitFlushImage builds one image: base + the selected page writes (+ header if complete).
+func (w *World) emitFlushImage(st *storeState, header []byte, W []pageWrite, base []byte, frontier uint64, nNew int, sel ImageSel, idx, sub int) {
+	all := sel.All
+	img := append([]byte(nil), base...)
+	sh := &fileShadow{data: img}
+	hasExisting, missingNew := false, false
+	in := map[int]bool{}
+	if all {
+		for i := range W {
 			in[i] = true
 		}
-		for i, pw := range W {
-			if in[i] {
-				sh.writeAt(int(pw.off), pw.b)
-				if pw.off < frontier {
-					hasExisting = true
-				}
-			} else if pw.off >= frontier {
-				missingNew = true
-			}
-		}
-		class := "other"
-		switch {
-		case all:
-			sh.writeAt(0, header)
-			class = "complete"
-		case len(in) == 0:
-			class = "none"
-		case len(in) == len(W):
-			class = "all-pages-no-header"
-		case hasExisting && missingNew:
-			class = "existing-without-all-new"
-		case !hasExisting:
-			class = "only-new"
-		}
-		files := w.SnapshotFiles()
-		files[st.path] = sh.data
-		hdrChanged := "no"
-		if len(base) >= len(header) && string(base[:len(header)]) != string(header) {
-			hdrChanged = "yes"
-		}
-		alloc := "no"
-		if len(header) >= 20 && binary.LittleEndian.Uint64(header[12:20]) != frontier {
-			alloc = "yes"
-		}
-		w.Captured = append(w.Captured, &Image{
-			Sel: sel, Idx: r.idx, Files: files, StmtIdx: w.stmtIdx, InStmt: w.inStmt,
-			Info: map[string]string{
-				"site": "flush", "trigger": w.flushTrigger(), "subset": class,
-				"nW": fmt.Sprint(len(W)), "nNew": fmt.Sprint(nNew), "hdr_changed": hdrChanged, "alloc": alloc,
-			},
-		})
-		w.count("image_flush")
-		w.count("image_flush_" + class)
 	}
+	for _, i := range sel.Subset {
+		in[i] = true
+	}
+	for i, pw := range W {
+		if in[i] {
+			sh.writeAt(int(pw.off), pw.b)
+			if pw.off < frontier {
+				hasExisting = true
+			}
+		} else if pw.off >= frontier {
+			missingNew = true
+		}
+	}
+	class := "other"
+	switch {
+	case all:
+		sh.writeAt(0, header)
+		class = "complete"
+	case len(in) == 0:
+		class = "none"
+	case len(in) == len(W):
+		class = "all-pages-no-header"
+	case hasExisting && missingNew:
+		class = "existing-without-all-new"
+	case !hasExisting:
+		class = "only-new"
+	}
+	files := w.SnapshotFiles()
+	files[st.path] = sh.data
+	hdrChanged := "no"
+	if len(base) >= len(header) && string(base[:len(header)]) != string(header) {
+		hdrChanged = "yes"
+	}
+	alloc := "no"
+	if len(header) >= 20 && binary.LittleEndian.Uint64(header[12:20]) != frontier {
+		alloc = "yes"
+	}
+	w.Captured = append(w.Captured, &Image{
+		Sel: sel, Idx: idx, Sub: sub, Files: files, StmtIdx: w.stmtIdx, InStmt: w.inStmt,
+		Info: map[string]string{
+			"site": "flush", "trigger": w.flushTrigger(), "subset": class,
+			"nW": fmt.Sprint(len(W)), "nNew": fmt.Sprint(nNew), "hdr_changed": hdrChanged, "alloc": alloc,
+		},
+	})
+	w.count("image_flush")
+	w.count("image_flush_" + class)
 }
 
 // captureWal is called immediately before a log write / fsync.
@@ -207,7 +232,7 @@ func (w *World) captureWal(h *walHandle, kind int, b []byte) {
 		}
 		pos := map[int]string{storage.VerifWalWriteLen: "len", storage.VerifWalWriteBody: "body", storage.VerifWalSync: "sync"}[kind]
 		w.Captured = append(w.Captured, &Image{
-			Sel: *r.sel, Idx: r.idx, Files: files, StmtIdx: w.stmtIdx, InStmt: true,
+			Sel: *r.sel, Idx: r.idx, Sub: -1, Files: files, StmtIdx: w.stmtIdx, InStmt: true,
 			Info: map[string]string{"site": "wal", "pos": pos, "cut": cut, "ev": fmt.Sprint(w.walEvIdx)},
 		})
 		w.count("image_wal")
@@ -218,7 +243,7 @@ func (w *World) captureWal(h *walHandle, kind int, b []byte) {
 // CaptureBoundary takes an image between two statements.
 func (w *World) CaptureBoundary(r capReq) {
 	w.Captured = append(w.Captured, &Image{
-		Sel: *r.sel, Idx: r.idx, Files: w.SnapshotFiles(), StmtIdx: w.stmtIdx, InStmt: false,
+		Sel: *r.sel, Idx: r.idx, Sub: -1, Files: w.SnapshotFiles(), StmtIdx: w.stmtIdx, InStmt: false,
 		Info: map[string]string{"site": "boundary"},
 	})
 	w.count("image_boundary")
